@@ -362,6 +362,10 @@ class SReal:
     def __repr__(self):
         return "SReal(%s)" % z3.simplify(self.e)
 
+    def __bool__(self):
+        # Python truth value of a number: non-zero (both outcomes are explored when feasible)
+        return bool(SBool(self.e != 0))
+
     def __float__(self):
         e = z3.simplify(self.e)
         if z3.is_rational_value(e):
